@@ -69,15 +69,24 @@ Print Assumptions c06_precoloured_kept.
 (* what the per-frame entry point run by the check establishes: the liveness table it computes is
    validated like a supplied certificate, and the rewritten program is literally the renamed
    program without the deleted copies *)
-Theorem c06_check_frame_unfold : forall prog fuel ctbl atbl physl ridx pre after,
-  check_frame prog fuel ctbl atbl physl ridx pre after = true ->
+Theorem c06_check_frame_unfold : forall prog fuel ctbl atbl physl extra ridx pre after,
+  check_frame prog fuel ctbl atbl physl extra ridx pre after = true ->
   let live := compute_live prog fuel in
   let removed := removed_flags ridx (length prog) in
   check_alloc prog live (color_of ctbl) (alias_of atbl) physl removed = true /\
+  check_entry_live prog live (physl ++ extra) = true /\
   check_precoloured (color_of ctbl) pre = true /\
   compact removed (target (color_of ctbl) prog removed) = after.
 Proof. exact check_frame_unfold. Qed.
 Print Assumptions c06_check_frame_unfold.
+
+(* entry check: a register outside [allowed] is never read before being written on any path from the
+   function entry (so spill code that reads its temporary before writing it is rejected) *)
+Theorem c06_entry_live_sound : forall prog live allowed,
+  check_live prog live = true -> check_entry_live prog live allowed = true ->
+  forall r, live_in prog r 0%nat -> In r allowed.
+Proof. exact entry_live_sound. Qed.
+Print Assumptions c06_entry_live_sound.
 
 (* deleting the no-op entries: the rewritten frame [after], run under the same semantics re-indexed
    to its own numbering, performs exactly the steps the coloured program performs at its
@@ -125,7 +134,7 @@ Definition ex_prog : list instr :=
 Definition ex_live : list (list reg) := [[2]; [1000]; [1000; 1001]; [1000; 1001]; [1000; 1001]; []].
 Definition ex_alias := alias_of [(0, [1]); (1, [0])].
 Example c06_nonvacuous :
-  check_frame ex_prog 10 [(1000, 2); (1001, 3)] [(0, [1]); (1, [0])] [0; 2; 3]
+  check_frame ex_prog 10 [(1000, 2); (1001, 3)] [(0, [1]); (1, [0])] [0; 2; 3] []
               [1%nat] [(2, 2); (3, 3); (0, 0)]
               [ mkInstr [] [2] [] false []; mkInstr [] [3] [] false [];
                 mkInstr [2; 3] [3] [0] false []; mkInstr [3] [] [] false [2%nat; 4%nat];
